@@ -211,7 +211,9 @@ func c01Run(w *core.W) {
 	w.Family("F5-comparison-negation")
 	{
 		vals := []T{I(1), I(2), F(1), F(1.5), Call("aton", S("NaN")), Call("aton", S("+Inf")), Call("aton", S("-Inf")),
-			Un("-", F(0)), I(0), S("ab"), L(F(1)), L(Call("aton", S("NaN"))), B(true), N("u"), N("gi"), Call("id", F(2))}
+			Un("-", F(0)), I(0), S("ab"), L(F(1)), L(Call("aton", S("NaN"))), B(true), N("u"), N("gi"), Call("id", F(2)),
+			N("na"), N("fa")} // one array value on both sides: it holds a NaN / a function, so it is not equal to itself
+		f5defs := []T{Asg("na", L(I(1), Call("aton", S("NaN")))), Asg("fa", L(N("id")))}
 		shapes := []func(c T) T{
 			func(c T) T { return c },
 			func(c T) T { return Un("!", c) },
@@ -238,7 +240,7 @@ func c01Run(w *core.W) {
 				for _, b := range vals {
 					for _, sh := range shapes {
 						for _, pl := range places {
-							if !emit(pl(sh(Bin(op, a, b)))) {
+							if !emit(append(append([]T{}, f5defs...), pl(sh(Bin(op, a, b)))...)) {
 								return
 							}
 						}
